@@ -583,8 +583,10 @@ let eval (fn : string) (args : string list) : string =
      | Ok (t, refs) -> print_tree t ^ "#" ^ print_refs refs
      | Panic -> "PANIC" | OutOfFuel -> "FUEL")
   | "Convert", [cfg; src] ->
-    (match convertModel (parse_rcfg cfg) (bytes_of_hex src) with
+    (match convertModelC (parse_rcfg cfg) (bytes_of_hex src) with
      | Ok o -> hex_of_bytes o | Panic -> "PANIC" | OutOfFuel -> "FUEL")
+  | "ParseLinesOk", [src] ->
+    (match parseLinesOk (bytes_of_hex src) with Ok b -> s_of_bool b | Panic -> "PANIC" | OutOfFuel -> "FUEL")
   | "ParseTree", [src] ->
     (match parseTree (bytes_of_hex src) with
      | Ok t -> print_tree t
